@@ -639,6 +639,39 @@ pub fn e2_spec(id: &str, tier: &str) -> Option<crate::e2::E2Spec> {
             }
             Some(E2Spec { id: "C21", scens, cap_s: cap, rule: RULE_E2, assumptions: e2_assumptions() })
         }
+        "C22" => {
+            // second half of C22: the panicking computation with a second thread that requests
+            // the same or a dependent function; every injection point x every schedule
+            let mut scens = Vec::new();
+            let bases: Vec<(ql::ex::Program, Vec<Vec<Op>>)> = vec![
+                (progs::p3(1, 0, 1), vec![vec![q(2)], vec![q(2)]]),
+                (progs::p3(1, 0, 1), vec![vec![q(1)], vec![q(2)]]),
+                (progs::p3(5, 3, 2), vec![vec![q(2)], vec![q(1), q(0)]]),
+                (progs::cyc2(Kind::Fx), vec![vec![q(0)], vec![q(1)]]),
+                (progs::cyc2(Kind::Fx), vec![vec![q(0)], vec![q(0)]]),
+            ];
+            for (bi, (p, th)) in bases.into_iter().enumerate() {
+                let base = Scen {
+                    name: format!("{}-fault-{bi}", p.name),
+                    prog: p,
+                    setup: vec![],
+                    threads: th,
+                    phase2_writes: vec![],
+                    phase2: false,
+                    bound: if quick { 1 } else { 2 },
+                    oracle: Oracle::Fault(-1),
+                    writer: vec![],
+                };
+                let n = crate::e2::count_points(&base) + 2;
+                for i in 0..n as i64 {
+                    let mut sc = base.clone();
+                    sc.name = format!("{}@{i}", base.name);
+                    sc.oracle = Oracle::Fault(i);
+                    scens.push(sc);
+                }
+            }
+            Some(E2Spec { id: "C22", scens, cap_s: cap, rule: RULE_E2, assumptions: e2_assumptions() })
+        }
         "C24" => {
             let mut scens = Vec::new();
             let p = progs::struct_set().remove(0); // two creators (nodes 0 and 3)
